@@ -195,6 +195,19 @@ def run(vc):
                         note=f"{c} of a table transformer is the value of its own (id, tap_pos) row")
             p.prove(f"vk[{kind}]:frame", not trafo_df.writes, note="the transformer table of the net is not written")
         vc.explore(f"_get_vk_values_from_table[{kind}]", hv_, max_paths=100)
+    _standins(vc)
+
+
+def _standins(vc):
+    if not hasattr(vc, "native_standins"):
+        vc.native_standins = []
+    vc.native_standins.append(dict(
+        name="table transformers against private rows / directly entered values on fixed networks",
+        bound="6 + 6 networks with 1..3 two- / three-winding transformers sharing characteristic ids at different tap positions (power flow: "
+              "private table rows, values entered directly, every transformer alone); short-circuit calculation (3ph max / min, 1ph) of three "
+              "two-winding transformers against the row values entered directly",
+        script="from replaylib import run_all\nfrom replaylib.taptable import main, main_sc\n"
+               "run_all(lambda: main('2W'), lambda: main('3W'), main_sc)\n", timeout=900))
 
 
 def classify(ob, model):
